@@ -16,13 +16,17 @@ FAULT_KINDS = ["dep", "abort", "devnull", "nofile", "alias", "lifetime", "alloc"
 N_CHOICES = [1, 2, 3, 5, 7, 12, 40]
 
 
+ONLY = None   # optional family filter (development / targeted runs): set of family names
+
+
+def _enabled(f, tier):
+    if ONLY is not None:
+        return f.name in ONLY
+    return not (f.cost == "heavy" and tier != "thorough")
+
+
 def tier_families(tier, prop):
-    fams = []
-    for f in T.FAMILIES.values():
-        if f.cost == "heavy" and tier != "thorough":
-            continue
-        fams.append(f)
-    return fams
+    return [f for f in T.FAMILIES.values() if _enabled(f, tier)]
 
 
 class ObjState(object):
@@ -362,7 +366,7 @@ def cornerstone_list(tier):
     world.load()
     out = []
     for f in T.FAMILIES.values():
-        if f.cost == "heavy" and tier != "thorough":
+        if not _enabled(f, tier):
             continue
         n = len(f.pool)
         pairs = [(p, q) for p in range(n) for q in range(n)]
